@@ -257,17 +257,84 @@ def nolt(ty):
     return re.sub(r"'[a-z_0-9]+ ?", '', ty or '')
 
 
+VARIANT_ROLES = {'future::FutureState': ['Zero', 'Waiting', 'Done']}
+
+
+def resolve_variants(j):
+    """variants of the private state enum are matched by declaration order when renamed (`Zero/Waiting/Done`)"""
+    done = {}
+    for a in j['adts']:
+        want = VARIANT_ROLES.get(canon(a['name']))
+        if not want:
+            continue
+        have = [v['name'] for v in a.get('variants', [])]
+        if len(have) != len(want) or have == want or any(v['fields'] for v in a['variants']):
+            continue
+        if set(have) & set(want):
+            continue  # partially renamed / reordered: do not guess
+        done[canon(a['name'])] = dict(zip(have, want))
+        for v, w in zip(a['variants'], want):
+            v['actual_name'] = v['name']
+            v['name'] = w
+    if not done:
+        return {}
+    allmaps = {}
+    for m in done.values():
+        allmaps.update(m)
+    srcsets = [set(m.keys()) for m in done.values()]
+
+    def walk(x):
+        if isinstance(x, dict):
+            if x.get('k') == 'agg' and x.get('ak') == 'adt' and canon(x.get('name', '')) in done:
+                m = done[canon(x['name'])]
+                if x.get('variant') in m:
+                    x['variant'] = m[x['variant']]
+            if x.get('k') == 'discr' and isinstance(x.get('variants'), list):
+                names = {v[0] for v in x['variants'] if isinstance(v, list) and v}
+                for ss in srcsets:
+                    if names and names <= ss:
+                        x['variants'] = [[allmaps.get(v[0], v[0])] + list(v[1:]) for v in x['variants']]
+            if 'dc' in x and isinstance(x.get('dc'), str) and x['dc'] in allmaps and 'FutureState' in str(x.get('ty', 'FutureState')):
+                x['dc'] = allmaps[x['dc']]
+            for v in x.values():
+                walk(v)
+        elif isinstance(x, list):
+            for v in x:
+                walk(v)
+
+    walk(j['bodies'])
+    return done
+
+
 def resolve_fields(j):
     """private fields the rules name (`queue`, `wait_list`, `sig`, `state`, `terminated` ...) are looked up by their TYPE inside
     their struct when the name is gone (a rename); exactly one candidate -> every projection / aggregate is renamed back.
     The two u32 counters are told apart by which one `Sender`'s Clone/Drop writes."""
     ren = {}   # (field type without lifetimes, actual name) -> canonical name
     agg = {}   # adt name -> {actual: canonical}
+    # private structs that merely GROUP fields of ChannelInternal (`counts: Counts { send, recv }`, `buffer: Buffer { queue,
+    # capacity }`) are looked through: their fields play the roles
+    byname = {canon(a['name']): a for a in j['adts']}
+    groups = {}
+    ci = byname.get('internal::ChannelInternal')
+    known = set(FIELD_ROLES) | {'signal::SignalTerminator', 'signal::KanalWaker', 'pointer::KanalPtr', 'future::FutureState'}
+    if ci is not None and ci.get('variants'):
+        cinames = {f['name'] for f in ci['variants'][0]['fields']}
+        for f in list(ci['variants'][0]['fields']):
+            base = nolt(f['ty']).split('<')[0]
+            g = byname.get(base)
+            if g is not None and base not in known and g.get('kind') == 'Struct' and g.get('variants') and g['variants'][0]['fields']:
+                inner = g['variants'][0]['fields']
+                if not ({x['name'] for x in inner} & (cinames - {f['name']})) and not any(x['name'].isdigit() for x in inner):
+                    groups[f['name']] = (base, inner)
+    j['ci_groups'] = sorted(groups)
     for a in j['adts']:
         roles = FIELD_ROLES.get(canon(a['name']))
         if not a.get('variants'):
             continue
         fields = a['variants'][0]['fields']
+        if a is ci and groups:
+            fields = [f for f in fields if f['name'] not in groups] + [x for g_ in groups.values() for x in g_[1]]
         names = [f['name'] for f in fields]
         todo = list(roles or [])
         for role, pat in todo:
@@ -278,6 +345,7 @@ def resolve_fields(j):
                 ren[(nolt(cands[0]['ty']), cands[0]['name'])] = role
                 agg.setdefault(canon(a['name']), {})[cands[0]['name']] = role
         if canon(a['name']) == 'internal::ChannelInternal' and not ('send_count' in names and 'recv_count' in names):
+            names = [f['name'] for f in fields]
             u32s = [f for f in fields if f['ty'] == 'u32']
             if len(u32s) == 2:
                 written = set()
@@ -297,6 +365,12 @@ def resolve_fields(j):
                                 agg.setdefault('internal::ChannelInternal', {})[actual] = role
     if not ren:
         return {}
+    # the group structs' own aggregates carry the renamed fields too
+    for gname, (gbase, inner) in groups.items():
+        for x in inner:
+            k = (nolt(x['ty']), x['name'])
+            if k in ren:
+                agg.setdefault(gbase, {})[x['name']] = ren[k]
 
     def walk(x):
         if isinstance(x, dict):
@@ -439,9 +513,12 @@ def normalise_modules(j):
             c = [k for k in c if any(b['key'] == k and b.get('vis') == 'Public' for b in j['bodies'])]
             if len(c) == 1:
                 ren.append((c[0], f))
-    if not ren:
-        return []
     pats = [(re.compile(r'(?<![A-Za-z0-9_:])%s(?![A-Za-z0-9_])' % re.escape(o)), n) for o, n in sorted(ren, key=lambda x: -len(x[0]))]
+    # an inherent impl that lives in another module than its type is printed `<impl path::Type<T>>::method`
+    pats.append((re.compile(r"<impl ([A-Za-z_][A-Za-z0-9_:]*)<([^<>]*)>>::"), r"\1::<\2>::"))
+    pats.append((re.compile(r"<impl ([A-Za-z_][A-Za-z0-9_:]*)>::"), r"\1::"))
+    if not ren and not any('<impl ' in b['key'] for b in j['bodies']):
+        return []
 
     def walk(v, key=None):
         if isinstance(v, str):
@@ -583,6 +660,10 @@ def resolve(j):
         pass
     try:
         resolve_fields(j)
+    except Exception:
+        pass
+    try:
+        resolve_variants(j)
     except Exception:
         pass
     try:
